@@ -29,6 +29,16 @@ CHECKS['C17'] = dict(
     design='4 (C17)',
     technique='Coq invariant proofs over operation sequences + lexer round-trip proof; vm_compute correspondence per operation; Python two-view oracle for replays')
 
+CHECKS['C03'] = dict(
+    text='Machine-checked: C03_binary (two writers of a leaf path, any flags: newer wins unless the older has strictly higher priority; survivor keeps its priority), '
+         'C03_winner (any number of writers in any order: the fold of the binary rule is the LATEST writer of MAXIMAL priority - stated by the split pre <= W > post), '
+         'C03_metadata (metadata keys of all competing values survive), C03_constants (force > standard > weak from the regenerated facts). '
+         'has_priority_over and _replace_self/_replace_other are tied EXHAUSTIVELY (T2) to the real functions; the tree recursion by sampled correspondence on '
+         'priority-tagged histories. Partial: the lift from the per-path writer sequence to whole nested documents (C03_spine) and tag inheritance at load time '
+         '(C03_inherit) are carried by the correspondence and the latest-argmax oracle, not yet by a theorem.',
+    design='4 (C03)',
+    technique='Coq proofs about the fold of the leaf rule (latest argmax) + exhaustive vm_compute correspondence of the priority logic + sampled merge correspondence; Python latest-argmax oracle for replays')
+
 NOT_APPLICABLE = {}
 
 
